@@ -345,7 +345,12 @@ def r3(ck, rule="C02-R3"):
             hi_e = hi[1] if isinstance(hi, tuple) and hi[0] == "field" and hi[2] == 0 else hi   # (SubWithOverflow(..)).0
             hi_ok = isinstance(hi_e, tuple) and hi_e[0] == "bin" and hi_e[1].startswith("Sub") and df.is_call(hi_e[2], "::len") and \
                 isinstance(hi_e[3], tuple) and hi_e[3][0] == "field" and hi_e[3][2] == "suffix_fuzz"
-            base_ok = df.mentions(base, lambda x: df.is_call(x, "::" + part)) and df.mentions(base, lambda x: isinstance(x, tuple) and x[0] == "field" and x[2] == "content")
+            from .. import sides
+            side_ok = all(sorted(sides.part_read(prog, fn, d_)) == [w_] for d_, w_ in
+                          (("Forward", part.split("_")[0]), ("Revert", "add" if part.startswith("remove") else "remove")))
+            base_ok = (df.mentions(base, lambda x: df.is_call(x, "::" + part)) or side_ok) and \
+                (df.mentions(base, lambda x: isinstance(x, tuple) and x[0] == "field" and x[2] == "content") or
+                 df.mentions_deep(fn, base, lambda x: isinstance(x, tuple) and x[0] == "field" and x[2] == "content"))
             good = lo_ok and hi_ok and base_ok
         ck.require(good, rule, "%s = content[prefix_fuzz .. len - suffix_fuzz]" % nm, "%s slices %s with %s" % (nm, df.show(base, 80), df.show(r, 160)), fn.where(t),
                    ok_detail=df.show(r, 160))
